@@ -55,7 +55,13 @@ RB = dict(name='RBTree.Insert/DeleteWithKey', probe='k05', fam=['rb'], quick=150
 RBQ = dict(name='RBTree.lookups+DeleteWithIterator', probe='k05q', fam=['rb'], quick=800, thorough=30000,
            case_start=r'^new$', nontrivial=nt_has('q', 'del'), min_per_shard=100,
            rule='insert/delete (by key and by iterator) interleaved with FindGE/FindLE/Get/Next/Prev queries')
-RBC = dict(name='RBTree.CloneDeep/CloneShallow/Erase', probe='k05c', fam=['rb'], quick=800, thorough=30000,
+RPFORK = dict(name='plumbing items under Fork(n): TreeDiff / BlobCache / TicksSinceStart per-branch memory', probe='k08p', fam=['td'],
+             quick=3000, thorough=100000, case_start=r'^cfg ', silent=r'^cfg ', nontrivial=nt_has('fork'), min_per_shard=100,
+             rule='tree-shaped histories of 3-12 commits with 2-4 children per branching commit, real Fork(k-1) of the three items at '
+                  'every branching, children replayed in random order; TreeDiff changes per branch compared with the branch-aware '
+                  'model; Go-side: clones distinct, no wrong-parent refusal, blob bytes exact, ticks clamped along the own branch, '
+                  'registry lists each commit once')
+BC = dict(name='RBTree.CloneDeep/CloneShallow/Erase', probe='k05c', fam=['rb'], quick=800, thorough=30000,
            case_start=r'^new$', nontrivial=nt_has('deep'), min_per_shard=100,
            rule='deep clones into allocators holding other trees and gaps; Used() accounting and Erase asserted Go-side')
 RBW = dict(name='several trees on shared/cloned allocators (Insert/Delete/Erase/CloneDeep/Clone+CloneShallow)', probe='k06w',
@@ -207,7 +213,7 @@ PROPS = {
     'C05': dict(corr=[RB, RBQ, RBC, RBW, E05]),
     'C06': dict(corr=[RB, RBC, RBW, HB, HBF, E05]),
     'C07': dict(corr=[MG, DAG]),
-    'C08': dict(corr=[DAG, RBC, RBW]),
+    'C08': dict(corr=[DAG, RBC, RBW, PFORK]),
     'C09': dict(corr=[RUN, HB, HBF, E01]),
     'C10': dict(level='translation_validation', corr=[RES, E10]),
     'C11': dict(corr=[LN, E11]),
@@ -218,6 +224,6 @@ PROPS = {
     'C16': dict(corr=[IDG, IDM, E16I, E16M]),
     'C17': dict(corr=[CD, CDC, E01]),
     'C18': dict(corr=[DEV, IDM, E18]),
-    'C19': dict(corr=[TK, E19]),
-    'C20': dict(corr=[TD, BC, E20N, E20P, E20R, E20L, E20S]),
+    'C19': dict(corr=[TK, E19, PFORK]),
+    'C20': dict(corr=[TD, BC, PFORK, E20N, E20P, E20R, E20L, E20S]),
 }
